@@ -252,6 +252,12 @@ namespace
         {
             return false;
         }
+        // move assignment into a differently configured object of the same type and move construction
+        // back: the composition must behave as before (its configuration and referenced allocators travel)
+        virtual bool xfer()
+        {
+            return false;
+        }
         // free capacity of the library pool inside a mixed composition, for the bucket serving sz
         virtual long long pool_free(std::size_t)
         {
@@ -333,9 +339,25 @@ namespace
         using ctraits = fm::composable_allocator_traits<A>;
         static constexpr bool is_comp = AllowComposable && fm::is_composable_allocator<A>::value;
         A a;
+        std::function<A()> mk_spare; // a second, differently configured object
         template <class... Args>
         explicit Comp(Args&&... args) : a(std::forward<Args>(args)...)
         {
+        }
+        bool xfer() override
+        {
+            if constexpr (std::is_move_assignable<A>::value && std::is_move_constructible<A>::value)
+            {
+                if (!mk_spare)
+                    return false;
+                A spare(mk_spare());
+                spare = std::move(a);
+                a.~A();
+                ::new (static_cast<void*>(&a)) A(std::move(spare));
+                return true;
+            }
+            else
+                return false;
         }
         bool composable() override
         {
@@ -468,6 +490,14 @@ namespace
         std::shared_ptr<void>  keep; // referenced objects
     };
 
+    template <class C, class F>
+    C* spare(C* c, F f)
+    {
+        c->mk_spare = f;
+        return c;
+    }
+    leaf<2> g_l2b;
+
     Made make_comp(const std::string& name)
     {
         Made m;
@@ -479,7 +509,7 @@ namespace
         else if (name == "leaf_p")
             m.c.reset(new Comp<leaf_p<1>>());
         else if (name == "direct")
-            m.c.reset(new Comp<allocator_adapter<leaf<1>>, true, true>(leaf<1>{}));
+            m.c.reset(spare(new Comp<allocator_adapter<leaf<1>>, true, true>(leaf<1>{}), [] { return allocator_adapter<leaf<1>>(leaf<1>{}); }));
         else if (name == "direct_n")
             m.c.reset(new Comp<allocator_adapter<leaf_n<1>>>(leaf_n<1>{}));
         else if (name == "ref")
@@ -487,9 +517,9 @@ namespace
         else if (name == "ref_p")
             m.c.reset(new Comp<allocator_reference<leaf_p<1>>>(g_p1));
         else if (name == "anyref")
-            m.c.reset(new Comp<any_allocator_reference>(g_l1));
+            m.c.reset(spare(new Comp<any_allocator_reference>(g_l1), [] { return any_allocator_reference(g_l2b); }));
         else if (name == "anyref_n")
-            m.c.reset(new Comp<any_allocator_reference>(g_n1));
+            m.c.reset(spare(new Comp<any_allocator_reference>(g_n1), [] { return any_allocator_reference(g_l2b); }));
         else if (name == "anyref_p")
             m.c.reset(new Comp<any_allocator_reference, false>(g_p1)); // is_composable() is false at run time
         else if (name == "ts")
@@ -497,12 +527,13 @@ namespace
         else if (name == "ts_ref")
             m.c.reset(new Comp<allocator_storage<reference_storage<leaf<1>>, std::mutex>>(g_l1));
         else if (name == "aligned")
-            m.c.reset(new Comp<aligned_allocator<leaf<1>>, true, true>(32u, leaf<1>{}));
+            m.c.reset(spare(new Comp<aligned_allocator<leaf<1>>, true, true>(32u, leaf<1>{}), [] { return aligned_allocator<leaf<1>>(8u, leaf<1>{}); }));
         else if (name == "aligned_n")
-            m.c.reset(new Comp<aligned_allocator<leaf_n<1>>>(16u, leaf_n<1>{}));
+            m.c.reset(spare(new Comp<aligned_allocator<leaf_n<1>>>(16u, leaf_n<1>{}), [] { return aligned_allocator<leaf_n<1>>(4u, leaf_n<1>{}); }));
         else if (name == "tracked")
         {
-            m.c.reset(new Comp<tracked_allocator<log_tracker, leaf<1>>, true, true>(log_tracker{}, leaf<1>{}));
+            m.c.reset(spare(new Comp<tracked_allocator<log_tracker, leaf<1>>, true, true>(log_tracker{}, leaf<1>{}),
+                             [] { return tracked_allocator<log_tracker, leaf<1>>(log_tracker{}, leaf<1>{}); }));
             m.tracker = true;
         }
         else if (name == "tracked_n")
@@ -516,17 +547,20 @@ namespace
             m.tracker = true;
         }
         else if (name == "seg2")
-            m.c.reset(new Comp<binary_segregator<threshold_segregatable<leaf<1>>, leaf<2>>, true, true>(
-                threshold(32u, leaf<1>{}), leaf<2>{}));
+            m.c.reset(spare(new Comp<binary_segregator<threshold_segregatable<leaf<1>>, leaf<2>>, true, true>(
+                                threshold(32u, leaf<1>{}), leaf<2>{}),
+                            [] { return binary_segregator<threshold_segregatable<leaf<1>>, leaf<2>>(threshold(8u, leaf<1>{}), leaf<2>{}); }));
         else if (name == "seg3")
-            m.c.reset(new Comp<segregator<threshold_segregatable<leaf<1>>, threshold_segregatable<leaf<2>>, leaf<3>>>(
-                make_segregator(threshold(16u, leaf<1>{}), threshold(64u, leaf<2>{}), leaf<3>{})));
+            m.c.reset(spare(new Comp<segregator<threshold_segregatable<leaf<1>>, threshold_segregatable<leaf<2>>, leaf<3>>>(
+                                make_segregator(threshold(16u, leaf<1>{}), threshold(64u, leaf<2>{}), leaf<3>{})),
+                            [] { return make_segregator(threshold(4u, leaf<1>{}), threshold(200u, leaf<2>{}), leaf<3>{}); }));
         else if (name == "seg_n")
             m.c.reset(new Comp<binary_segregator<threshold_segregatable<leaf_n<1>>, leaf<2>>>(
                 threshold(24u, leaf_n<1>{}), leaf<2>{}));
         else if (name == "fb")
         {
-            m.c.reset(new Comp<fallback_allocator<leaf<1>, leaf<2>>, true, true>(leaf<1>{}, leaf<2>{}));
+            m.c.reset(spare(new Comp<fallback_allocator<leaf<1>, leaf<2>>, true, true>(leaf<1>{}, leaf<2>{}),
+                            [] { return fallback_allocator<leaf<1>, leaf<2>>(leaf<1>{}, leaf<2>{}); }));
             m.fallback = true;
         }
         else if (name == "fb_n")
@@ -549,7 +583,8 @@ namespace
         else if (name == "fb_aligned")
         {
             using inner = aligned_allocator<leaf<1>>;
-            m.c.reset(new Comp<fallback_allocator<inner, leaf<2>>>(inner(16u, leaf<1>{}), leaf<2>{}));
+            m.c.reset(spare(new Comp<fallback_allocator<inner, leaf<2>>>(inner(16u, leaf<1>{}), leaf<2>{}),
+                            [] { return fallback_allocator<inner, leaf<2>>(inner(64u, leaf<1>{}), leaf<2>{}); }));
             m.fallback = true;
         }
         else if (name == "fb_tracked")
@@ -567,7 +602,8 @@ namespace
         else if (name == "aligned_tracked")
         {
             using inner = tracked_allocator<log_tracker, leaf<1>>;
-            m.c.reset(new Comp<aligned_allocator<inner>>(32u, inner(log_tracker{}, leaf<1>{})));
+            m.c.reset(spare(new Comp<aligned_allocator<inner>>(32u, inner(log_tracker{}, leaf<1>{})),
+                            [] { return aligned_allocator<inner>(4u, inner(log_tracker{}, leaf<1>{})); }));
         }
         else if (name == "ts_fb")
         {
@@ -585,8 +621,9 @@ namespace
         else if (name == "ref_aligned")
         {
             using al = aligned_allocator<leaf<1>>;
-            auto s   = std::make_shared<al>(64u, leaf<1>{});
-            m.c.reset(new Comp<allocator_reference<al>>(*s));
+            auto s   = std::make_shared<std::pair<al, al>>(al(64u, leaf<1>{}), al(8u, leaf<1>{}));
+            al*  other = &s->second;
+            m.c.reset(spare(new Comp<allocator_reference<al>>(s->first), [other] { return allocator_reference<al>(*other); }));
             m.keep = s;
         }
         else if (name == "seg_fb")
@@ -599,8 +636,10 @@ namespace
         else if (name == "mra")
         {
             auto res = std::make_shared<memory_resource_adapter<leaf<1>>>(leaf<1>{});
-            m.c.reset(new Comp<memory_resource_allocator, true, true>(res.get()));
-            m.keep = res;
+            auto res2 = std::make_shared<memory_resource_adapter<leaf<2>>>(leaf<2>{});
+            auto r2   = res2.get();
+            m.c.reset(spare(new Comp<memory_resource_allocator, true, true>(res.get()), [r2] { return memory_resource_allocator(r2); }));
+            m.keep = std::make_shared<std::pair<decltype(res), decltype(res2)>>(res, res2);
         }
         else if (name == "mra_shrinking")
         {
@@ -612,7 +651,8 @@ namespace
         }
         else if (name == "fb_pool")
         {
-            m.c.reset(new PoolFb<fixed_pool>(fixed_pool(16, fixed_pool::min_block_size(16, 6), raw_up()), leaf<3>{}));
+            m.c.reset(spare(new PoolFb<fixed_pool>(fixed_pool(16, fixed_pool::min_block_size(16, 6), raw_up()), leaf<3>{}),
+                            [] { return fallback_allocator<fixed_pool, leaf<3>>(fixed_pool(32, fixed_pool::min_block_size(32, 3), raw_up()), leaf<3>{}); }));
             m.fallback = m.mixed = true;
         }
         else if (name == "fb_apool")
@@ -622,7 +662,8 @@ namespace
         }
         else if (name == "fb_coll")
         {
-            m.c.reset(new PoolFb<fixed_coll>(fixed_coll(32, 600, raw_up()), leaf<3>{}));
+            m.c.reset(spare(new PoolFb<fixed_coll>(fixed_coll(32, 600, raw_up()), leaf<3>{}),
+                            [] { return fallback_allocator<fixed_coll, leaf<3>>(fixed_coll(16, 400, raw_up()), leaf<3>{}); }));
             m.fallback = m.mixed = true;
         }
         return m;
@@ -694,6 +735,13 @@ namespace
                 }
                 Ev("sret").i("id", id).s("r", r).i("h", h).i("b", blk).i("off", off).u("n", cnt).u("sz", sz).u("al", al).u(
                     "mis", p && al ? reinterpret_cast<std::uintptr_t>(p) % al : 0);
+                continue;
+            }
+            if (op == "xm")
+            {
+                bool        did = false;
+                std::string r   = classify([&] { did = c.xfer(); });
+                Ev("xfer").s("r", r).b("did", did);
                 continue;
             }
             if (op == "rs")
